@@ -52,6 +52,8 @@ impl SrtlaRegistrationManager {
     pub fn new() -> Self {
         let mut id = [0u8; SRTLA_ID_LEN];
         rand::rng().fill_bytes(&mut id);
+        #[cfg(feature = "verif-hooks")]
+        crate::verif_hooks::seeded_fill(&mut id);
         Self {
             srtla_id: id,
             pending_reg2_idx: None,
